@@ -1649,6 +1649,31 @@ impl PGen {
             let again = out[self.rng.below(out.len() as u64) as usize].clone();
             out.push(again);
         }
+        // a name bound once more, to *another* value or key (template reuse, key rotation): the last binding counts
+        if self.rng.chance(1, 4) && !out.is_empty() {
+            let first = out[self.rng.below(out.len() as u64) as usize].clone();
+            let other_key = |rng: &mut Rng, old: &PublicKey| {
+                let mut k = rng.pick(&keys).clone();
+                for _ in 0..4 {
+                    if &k != old {
+                        break;
+                    }
+                    k = rng.pick(&keys).clone();
+                }
+                k
+            };
+            let second = match first {
+                Cmd::Set(n, _) => Cmd::Set(n, self.value()),
+                Cmd::SetLenient(n, _) => Cmd::SetLenient(n, self.value()),
+                Cmd::Ign(n, _) => Cmd::Ign(n, self.value()),
+                Cmd::SetScope(n, k) => Cmd::SetScope(n, other_key(&mut self.rng, &k)),
+                Cmd::SetScopeLenient(n, k) => Cmd::SetScopeLenient(n, other_key(&mut self.rng, &k)),
+                Cmd::IgnScope(n, k) => Cmd::IgnScope(n, other_key(&mut self.rng, &k)),
+                Cmd::Macro(n, AnyP::Term(_)) => Cmd::Macro(n, AnyP::Term(self.value())),
+                Cmd::Macro(n, AnyP::Key(k)) => Cmd::Macro(n, AnyP::Key(other_key(&mut self.rng, &k))),
+            };
+            out.push(second);
+        }
         out
     }
     pub fn random_case(&mut self) -> PCase {
